@@ -56,7 +56,7 @@ Definition rust_of_d (d : dty) : rty := match d with DInt => RI64 | DFloat => RF
    exponent classification (on the IR) agrees with the checker's (on the AST) *)
 Lemma rust_bin_spec o dl dr r ltail :
   (o = OPow -> bad_exp r = false /\
-               ~ (doc_bin OPow dl dr (extract_ast r) = DFloat /\ (dl = DInt \/ ltail = true))) ->
+               ~ (doc_bin OPow dl dr (extract_ast r) = DFloat /\ dl = DFloat /\ ltail = true)) ->
   rust_binop (ast_to_ir (aop_ast o)) (ir_of (dty_res dl)) (ir_of (dty_res dr)) (fst (lower r)) ltail
              (rust_of_d dl) (rust_of_d dr)
   = Some (rust_of_d (doc_bin o dl dr (extract_ast r))).
@@ -65,24 +65,22 @@ Proof.
   destruct o; try (destruct dl, dr; reflexivity).
   destruct (Hbad eq_refl) as [Hb Hcast]. unfold bad_exp in Hb.
   destruct dl, dr; cbn.
-  - (* int ** int: int result only (a float result would need the cast) *)
+  - (* int ** int *)
     unfold pow_kind_ir, core_PowExponentKind_from_literal_info; cbn.
     fold (ir_lit (fst (lower r))).
-    cbn in Hcast.
     destruct (extract_ast r) as [n|] eqn:Ea.
     + rewrite (ast_lit_ir_lit r n Ea).
-      destruct (n >=? 0) eqn:E; [replace (0 <=? n) with true by lia|replace (0 <=? n) with false in * by lia].
-      * reflexivity.
-      * exfalso. apply Hcast. split; [reflexivity|left; reflexivity].
-    + exfalso. apply Hcast. split; [reflexivity|left; reflexivity].
-  - (* int ** float *) exfalso. apply Hcast. split; [reflexivity|left; reflexivity].
+      destruct (n >=? 0) eqn:E; [replace (0 <=? n) with true by lia|replace (0 <=? n) with false in * by lia]; reflexivity.
+    + destruct (ir_lit (fst (lower r))) as [n|]; [|reflexivity].
+      replace (n >=? 0) with false by lia. reflexivity.
+  - (* int ** float *) reflexivity.
   - (* float ** int *)
-    destruct ltail; [exfalso; apply Hcast; split; [reflexivity|right; reflexivity]|].
+    destruct ltail; [exfalso; apply Hcast; repeat split; reflexivity|].
     unfold pow_kind_ir, core_PowExponentKind_from_literal_info; cbn.
     destruct (match fst (lower r) with IInt n => Some n | INeg (IInt n) => Some (- n) | _ => None end) as [n|];
       [destruct (n >=? 0)|]; reflexivity.
   - (* float ** float *)
-    destruct ltail; [exfalso; apply Hcast; split; [reflexivity|right; reflexivity]|]. reflexivity.
+    destruct ltail; [exfalso; apply Hcast; repeat split; reflexivity|]. reflexivity.
 Qed.
 
 (* all phases agree with the documented type, for expression trees of any depth *)
@@ -115,9 +113,7 @@ Proof.
     apply andb_prop in Hp. destruct Hp as [Hp1 Hp2].
     split; [now apply negb_true_iff in Hp1|].
     apply negb_true_iff in Hp2. unfold cast_pow in Hp2. rewrite <- extract_is_doc_literal in Hp2.
-    intros [Hf [Hd|Ht]]; rewrite Hf in Hp2.
-    + rewrite Hd in Hp2. discriminate.
-    + rewrite Ht in Hp2. destruct (doc_ty l); discriminate.
+    intros (Hf & Hd & Ht). rewrite Hf, Hd, Ht in Hp2. discriminate.
 Qed.
 
 (* whatever type the const evaluator assigns is the documented one (Paren included: it rejects) *)
@@ -136,6 +132,20 @@ Proof.
     rewrite cst_arith_spec in Ht. rewrite <- extract_is_doc_literal. congruence.
 Qed.
 
+(* an int-valued expression's emitted text never ends in a cast *)
+Lemma tail_cast_int e : clean e = true -> doc_ty e = DInt -> tail_cast (fst (lower e)) = false.
+Proof.
+  induction e as [n| |f|i IH|i IH|o l IHl r IHr]; intros Hc Hd; cbn [clean doc_ty lower fst tail_cast] in *;
+    try reflexivity.
+  - apply IH; assumption.
+  - destruct (lower i) as [ie t] eqn:El. cbn [fst tail_cast] in *. apply IH; assumption.
+  - apply andb_prop in Hc. destruct Hc as [Hc _]. apply andb_prop in Hc. destruct Hc as [Hcl Hcr].
+    destruct (phases_agree l Hcl) as (L1 & _). destruct (phases_agree r Hcr) as (R1 & _).
+    rewrite L1, R1.
+    destruct o, (doc_ty l) eqn:Dl, (doc_ty r) eqn:Dr; cbn in Hd; try discriminate; cbn; try reflexivity;
+      apply IHr; auto.
+Qed.
+
 (* comparisons: bool in the checker, and what is emitted (`l op r` after promotion) is bool for
    Rust, mixed int/float included *)
 Lemma cmp_spec o l r : clean l = true -> clean r = true -> cast_lt o l r = false ->
@@ -145,8 +155,8 @@ Proof.
   intros Hl Hr Hlt.
   destruct (phases_agree l Hl) as (L1 & _ & _ & L4). destruct (phases_agree r Hr) as (R1 & _ & _ & R4).
   cbn [rust_ty]. rewrite L1, R1, L4, R4. unfold cast_lt in Hlt.
-  destruct o, (doc_ty l), (doc_ty r); try discriminate; try (split; reflexivity);
-    rewrite Hlt; split; reflexivity.
+  destruct o, (doc_ty l) eqn:Dl, (doc_ty r); try discriminate; try (split; reflexivity);
+    cbn; try rewrite (tail_cast_int l Hl Dl); try rewrite Hlt; split; reflexivity.
 Qed.
 
 (* every arithmetic tree over int/float operands has a numeric checker type (no side condition) *)
@@ -196,11 +206,20 @@ Proof.
 Qed.
 
 Lemma cast_findings_refuted :
-  (let e := ABin OPow (AVar false) (AVar false) in
+  (let e := ABin OPow (AParen (ABin OAdd AFloatLit (AVar false))) (AVar true) in
    clean e = false /\ chk e = ResolvedType_Float /\ rust_ty (fst (lower e)) = None) /\
-  (let l := AVar false in let r := AVar true in
+  (let l := AParen (ABin OAdd (AVar true) (AVar false)) in let r := AVar true in
    cast_lt CLt l r = true /\ chk_cmp CLt (chk l) (chk r) = ResolvedType_Bool /\
    rust_ty (IBin (ast_to_ir (cop_ast CLt)) (fst (lower l)) (ir_of (chk l)) (fst (lower r)) (ir_of (chk r))) = None).
+Proof. cbv zeta. repeat split; reflexivity. Qed.
+
+(* regression witnesses of the repaired findings cast-method-pow and cast-lt *)
+Lemma cast_findings_fixed :
+  (let e := ABin OPow (AVar false) (AVar false) in
+   clean e = true /\ chk e = ResolvedType_Float /\ rust_ty (fst (lower e)) = Some RF64) /\
+  (let l := AVar false in let r := AVar true in
+   cast_lt CLt l r = false /\
+   rust_ty (IBin (ast_to_ir (cop_ast CLt)) (fst (lower l)) (ir_of (chk l)) (fst (lower r)) (ir_of (chk r))) = Some RBool).
 Proof. cbv zeta. repeat split; reflexivity. Qed.
 
 (* the known finding is real in the model *)
